@@ -18,6 +18,7 @@ import (
 	"sync/atomic"
 	"time"
 
+	"go.sia.tech/core/consensus"
 	"go.sia.tech/core/gateway"
 	"go.sia.tech/core/types"
 	"go.sia.tech/coreutils/chain"
@@ -109,6 +110,39 @@ func (b *blockingCM) Headers(index types.ChainIndex, max uint64) ([]types.BlockH
 	return nil, 0, nil
 }
 
+// AddBlocks / AddValidatedV2Blocks are what the syncer's block-applying goroutine calls.
+func (b *blockingCM) AddBlocks(blocks []types.Block) error {
+	defer b.tb.parkAdd()()
+	return b.Manager.AddBlocks(blocks)
+}
+
+func (b *blockingCM) AddValidatedV2Blocks(blocks []types.Block, states []consensus.State) error {
+	defer b.tb.parkAdd()()
+	return b.Manager.AddValidatedV2Blocks(blocks, states)
+}
+
+// parkAdd records a block-applying call of the syncer and holds it while the gate is shut.
+func (tb *bed) parkAdd() func() {
+	tb.mu.Lock()
+	tb.addCalls++
+	tb.addLive++
+	if tb.closeReturned {
+		tb.addAfterClose++
+	}
+	g := tb.addGate
+	tb.mu.Unlock()
+	tb.bump()
+	if g != nil {
+		<-g
+	}
+	return func() {
+		tb.mu.Lock()
+		tb.addLive--
+		tb.mu.Unlock()
+		tb.bump()
+	}
+}
+
 // History is what the sync loop calls first on every tick; an error there is fatal for Run.
 func (b *blockingCM) History() ([32]types.BlockID, error) {
 	if g := b.tb.histGate; g != nil {
@@ -184,6 +218,10 @@ type bedConfig struct {
 	// RPCTimeoutMs: WithRPCTimeout (default here 1 minute): a handler whose client never completes
 	// its request gives up, and returns its slots, when this deadline passes
 	RPCTimeoutMs int `json:",omitempty"`
+	// SyncIntervalMs: WithSyncInterval (default here: never); ParkAddBlocks: AddBlocks and
+	// AddValidatedV2Blocks of the chain manager are held until the harness lets them go
+	SyncIntervalMs int  `json:",omitempty"`
+	ParkAddBlocks  bool `json:",omitempty"`
 }
 
 type bed struct {
@@ -210,7 +248,11 @@ type bed struct {
 	wake chan struct{} // poked on every observation
 
 	histGate chan struct{} // see bedConfig.FailHistory
-	sink     net.Listener  // a live gateway acceptor for Connect probes
+
+	addGate                          chan struct{} // see bedConfig.ParkAddBlocks
+	addCalls, addLive, addAfterClose int
+	closeReturned                    bool
+	sink                             net.Listener // a live gateway acceptor for Connect probes
 }
 
 func (tb *bed) bump() {
@@ -250,6 +292,12 @@ func newBedWith(cfg bedConfig, prefill func(syncer.PeerStore, gateway.Header), e
 		syncer.WithInflightRPCSubnetPrefixes(cfg.V4Bits, 48),
 		syncer.WithRPCTimeout(rpcTimeout(cfg)),
 		syncer.WithConnectTimeout(connectTimeout(cfg)),
+	}
+	if cfg.ParkAddBlocks {
+		tb.addGate = make(chan struct{})
+	}
+	if cfg.SyncIntervalMs > 0 {
+		opts = append(opts, syncer.WithSyncInterval(time.Duration(cfg.SyncIntervalMs)*time.Millisecond))
 	}
 	if cfg.FailHistory {
 		tb.histGate = make(chan struct{})
